@@ -1640,12 +1640,33 @@ static void emit_text(Obj *prog) {
 
     // Save arg registers if function is variadic
     if (fn->va_area) {
-      int gp = 0, fp = 0;
+      // Count the registers taken by the named parameters and find
+      // the end of the named parameters passed on the stack.
+      int gp = 0, fp = 0, overflow = 16;
       for (Obj *var = fn->params; var; var = var->next) {
-        if (is_flonum(var->ty))
+        Type *ty = var->ty;
+
+        if (var->offset > 0) {
+          overflow = align_to(var->offset + ty->size, 8);
+          continue;
+        }
+
+        switch (ty->kind) {
+        case TY_STRUCT:
+        case TY_UNION: {
+          int ngp, nfp;
+          struct_regs(ty, &ngp, &nfp);
+          gp += ngp;
+          fp += nfp;
+          break;
+        }
+        case TY_FLOAT:
+        case TY_DOUBLE:
           fp++;
-        else
+          break;
+        default:
           gp++;
+        }
       }
 
       int off = fn->va_area->offset;
@@ -1654,7 +1675,7 @@ static void emit_text(Obj *prog) {
       println("  movl $%d, %d(%%rbp)", gp * 8, off);          // gp_offset
       println("  movl $%d, %d(%%rbp)", fp * 8 + 48, off + 4); // fp_offset
       println("  movq %%rbp, %d(%%rbp)", off + 8);            // overflow_arg_area
-      println("  addq $16, %d(%%rbp)", off + 8);
+      println("  addq $%d, %d(%%rbp)", overflow, off + 8);
       println("  movq %%rbp, %d(%%rbp)", off + 16);           // reg_save_area
       println("  addq $%d, %d(%%rbp)", off + 24, off + 16);
 
